@@ -111,6 +111,15 @@ CHECKS = [
              "index sets containing the active point mass, once per other object if inter-object.",
      "note": "Trusted: the multiset oracle and the docstring model in vlib/props/C10.py; handlers behind the taggers get a harness "
              "Estimator. Whole-object motion with point-mass cells is outside the single-active-unit contract and excluded (counted)."},
+    {"id": "C19", "engine": "hypothesis-runner", "design_ref": "DESIGN.md §3 C19",
+     "technique": "differential property-based testing across fresh processes: generated (configuration, seed, dump schedule); original run vs. run resumed from every dump vs. run without dumping, compared record by record (float.hex times, state digests)",
+     "text": "For generated configurations (12 shipped wirings incl. cell systems, mode switching, C-backed potentials; heap/list scheduler; "
+             "N up to 6) a dumping tagger is wired in as in the shipped dump example; subprocesses execute the real run.main / resume.main "
+             "under class-level recorders. Every resumed run must reproduce the original's suffix (handler class, candidate time bits, "
+             "global-state digest, written samples) for up to 400 records, and the run with dumps must equal the run without, minus "
+             "the dumping events.",
+     "note": "Trusted: the recorders (class-level patches of non-Initializer classes only; private read Scheduler._last_returned_event), "
+             "dill, blake2 digests of float.hex state. Quick tier: 36 cases x 3-6 dumps; resumed runs are compared for at most 400 records."},
 ]
 
 _ALL = ["C%02d" % i for i in range(1, 21)]
